@@ -271,6 +271,35 @@ def dbForms [LE α] [DecidableLE α] (h2o : α) (table : List α) (pos : Positio
 
 end generic
 
+/-! ## `Display for Peptide` (structure only; the float text `{:+}` is the parameter `fmt`) -/
+
+section display
+variable {α : Type} [OfNat α 0] [BEq α]
+
+/-- `[` = 91, `]` = 93, `-` = 45 -/
+def bracket (t : List Nat) : List Nat := 91 :: (t ++ [93])
+
+/-- `write!(f, "[{:+}]-", m)` when the N-terminus is set -/
+def dispN (fmt : α → List Nat) : Option α → List Nat
+  | some m => bracket (fmt m) ++ [45]
+  | none => []
+
+/-- `write!(f, "-[{:+}]", m)` when the C-terminus is set -/
+def dispC (fmt : α → List Nat) : Option α → List Nat
+  | some m => 45 :: bracket (fmt m)
+  | none => []
+
+/-- the `zip` loop: `X[+m]` for a residue whose slot is `!= 0.0`, `X` otherwise -/
+def dispResidues (fmt : α → List Nat) : List Nat → List α → List Nat
+  | c :: cs, m :: ms => (if m == 0 then [c] else c :: bracket (fmt m)) ++ dispResidues fmt cs ms
+  | _, _ => []
+
+/-- `impl Display for Peptide`, as code points -/
+def display (fmt : α → List Nat) (p : Peptide α) : List Nat :=
+  dispN fmt p.nterm ++ dispResidues fmt p.sequence p.mods ++ dispC fmt p.cterm
+
+end display
+
 /-! ## specification (executable, exact rationals)
 
 Written from the property text, not from the code: walk over the sites of the peptide
